@@ -260,7 +260,7 @@ def _frames(rng, corpus, maxlen=600, special=None, lo=1, hi=14):
 
 
 # ====================================================================================== LE: fixed channels
-LE_TARGETS = ['att_server', 'att_client', 'att_client_late', 'att_indicate', 'smp', 'le_sig', 'cid', 'l2cap_raw']
+LE_TARGETS = ['att_server', 'att_client', 'att_client_late', 'att_indicate', 'smp', 'le_sig', 'cid', 'l2cap_raw', 'coc_data']
 
 
 def gen_le(rng, tier, seed):
@@ -280,6 +280,25 @@ def gen_le(rng, tier, seed):
             f = hostile(rng, [x for x in ATT_TO_CLIENT if x[:1] not in (b'\x0b', b'\x01')])
             if f[:1] not in (b'\x0b', b'\x01'):
                 fr.append(f.hex())
+        case['frames'] = fr
+    elif target == 'coc_data':
+        # K-frames on an open LE credit-based channel whose SDU length field disagrees with what follows
+        fr = []
+        for _ in range(rng.randint(1, 8)):
+            n = rng.choice([0, 1, 3, 10, 40, 62])
+            body = bytes(rng.randrange(256) for _ in range(n))
+            kind = rng.choice(['overflow', 'overflow', 'zero_len', 'exact', 'beyond_mtu', 'short_then_rest'])
+            if kind == 'overflow':
+                fr.append((struct.pack('<H', rng.randrange(0, max(1, n))) + body).hex())
+            elif kind == 'zero_len':
+                fr.append((struct.pack('<H', 0) + body).hex())
+            elif kind == 'exact':
+                fr.append((struct.pack('<H', n) + body).hex())
+            elif kind == 'beyond_mtu':
+                fr.append((struct.pack('<H', rng.choice([65, 100, 0x7FFF, 0xFFFF])) + body[:1]).hex() + ':abandon')
+            else:
+                rest = rng.randint(1, 30)
+                fr.append((struct.pack('<H', n + rest) + body).hex() + ':' + bytes(rng.randrange(256) for _ in range(rest)).hex())
         case['frames'] = fr
     elif target == 'smp':
         case['frames'] = _frames(rng, SMP)
@@ -326,7 +345,7 @@ class LeRig:
         v.keystore = MemoryKeyStore()
         pairing.install(sim, v, 'R', 3, True, False, True, {}, [], {})
         self.coc = []
-        v.create_l2cap_server(l2cap.LeCreditBasedChannelSpec(psm=0x80, mtu=64, mps=32, max_credits=4), handler=self.coc.append)
+        v.create_l2cap_server(l2cap.LeCreditBasedChannelSpec(psm=0x80, mtu=64, mps=32, max_credits=24), handler=self.coc.append)
         world.power_on()
         if case['attacker_central']:
             ca, cv = world.connect_le(1, 0)
@@ -381,9 +400,11 @@ def run_le(case):
         rig = LeRig(sim, case)
         target = case['target']
         label = target
-        frames = [bytes.fromhex(f) for f in case['frames']]
+        frames = [bytes.fromhex(f) for f in case['frames']] if target != 'coc_data' else list(case['frames'])
         try:
-            if target == 'att_client':
+            if target == 'coc_data':
+                _le_coc_data(sim, rig, case, frames)
+            elif target == 'att_client':
                 _le_att_client(sim, rig, case, frames)
             elif target == 'att_client_late':
                 _le_att_client_late(sim, rig, case, frames)
@@ -418,7 +439,7 @@ def run_le(case):
             pass
         check_recursion(sim, label)
         note_exceptions(sim)
-        sim.trace.shape(target, tuple((f[:1].hex(), min(len(f), 40) // 8) for f in frames))
+        sim.trace.shape(target, tuple(((f[:1].hex(), min(len(f), 40) // 8) if isinstance(f, bytes) else (f[:4], len(f) // 16)) for f in frames))
         return result(sim, nontrivial=sim.probes['hostile_frames_processed'] > 0 and sim.probes['reference_requests'] > 0)
     finally:
         sim.close()
@@ -455,6 +476,55 @@ def _ref_le_sig(sim, rig, case, label):
     ok = got[0] == 0x15 and len(got) == 14 and struct.unpack_from('<H', got, 12)[0] == 0
     if not ok:
         sim.violation_once('ref-sig', f'reference-answered-wrongly:{label}:le-credit-connect', f'got {got.hex()}')
+
+
+def _le_coc_data(sim, rig, case, frames):
+    from bsim.rawpeer import LeCocPeer
+
+    label = 'coc_data'
+    coc = LeCocPeer(sim, rig.raw, 256, 64, 8, 'one')
+    end = coc.connect(rig.ca.handle, 0x80)
+    sim.loop.settle(vt_budget=2.0)
+    if not end.open or not rig.coc:
+        raise HarnessError('LE CoC to the victim did not open')
+    vch = rig.coc[-1]
+    vch.sink = lambda data: vch.write(bytes(data)) if data else None  # the victim's application echoes (write() is a stream API: nothing to echo for an empty SDU)
+
+    def echoed(msg, vt=10.0):
+        n = len(end.rx_stream)
+        sim.call(end.write, msg)
+        sim.loop.drive(lambda: msg in bytes(end.rx_stream[n:]), vt_budget=vt, step_budget=300_000)
+        return msg in bytes(end.rx_stream[n:])
+    if not echoed(b'ping-0'):
+        raise HarnessError('echo baseline failed')
+    for spec in frames:
+        head, _, tail = spec.partition(':')
+        if end.tx_credits < 2:
+            break  # never send without a credit: that would be a reason for the victim to close the channel
+        end.tx_credits -= 1
+        process(sim, label, rig.raw.send, rig.ca.handle, end.dcid, bytes.fromhex(head))
+        if tail and tail != 'abandon' and end.tx_credits >= 2:
+            # the rest of the SDU announced by the previous frame (so that no SDU is left half-sent)
+            end.tx_credits -= 1
+            process(sim, label, rig.raw.send, rig.ca.handle, end.dcid, bytes.fromhex(tail))
+    check_recursion(sim, label)
+    sim.loop.settle(vt_budget=2.0)
+    if vch.state != vch.State.CONNECTED:
+        # an SDU longer than the MTU / the announced length is a reason to close the channel (Core Vol 3 Part A 3.4.3): legitimate
+        sim.probe('legitimate_close_in_attack')
+        rig.alive(label)
+        return
+    if any(f.endswith(':abandon') for f in frames):
+        # an SDU was left unfinished on purpose: what follows legitimately continues it; the channel is only checked for liveness
+        sim.probe('reference_requests')
+        rig.alive(label)
+        return
+    with Guard(sim, label):
+        ok = echoed(b'reference-sdu-after-the-attack')
+    sim.probe('reference_requests')
+    if not ok:
+        sim.violation_once('ref', f'reference-unanswered:{label}:echo-over-le-coc:raised={_exc(sim)}', 'a well-formed SDU sent on the open LE credit-based channel after the hostile K-frames was not echoed')
+    rig.alive(label)
 
 
 def _le_att_indicate(sim, rig, case, frames):
@@ -715,7 +785,7 @@ def run_classic(case):
             pass
         check_recursion(sim, target)
         note_exceptions(sim)
-        sim.trace.shape(target, tuple((f[:1].hex(), min(len(f), 40) // 8) for f in frames))
+        sim.trace.shape(target, tuple(((f[:1].hex(), min(len(f), 40) // 8) if isinstance(f, bytes) else (f[:4], len(f) // 16)) for f in frames))
         return result(sim, nontrivial=sim.probes['hostile_frames_processed'] > 0 and sim.probes['reference_requests'] > 0)
     finally:
         sim.close()
